@@ -396,3 +396,53 @@ Proof. exact init_applied. Qed.
 (* (E6) on the same table: computed with the numbering base left symbolic *)
 Example C17_from_empty_syntactic : forall l p base, find_def defs2 l = Some p -> file_class base p = None.
 Proof. exact defs2_in_fragment. Qed.
+
+(* ------------------------------------------------------------------------------------------------------------------
+   Follow-up 2: the CONFIG object (Model/C17_Config.v; pyConfig.Merge and the dict branch of package() are interpreted
+   from the statements gotrans translates from /repo, Gen/C17Config.v).
+
+   C17_config_statement: on one interpreter, whatever packages were parsed before it, a package ends with the CONFIG it
+   ends with when parsed alone.  REFUTED: pyConfig.Freeze freezes none of the overlay's values, so a dict-valued entry a
+   subincluded file sets is one ordinary mutable dict in every including package (x = CONFIG.MYLANG; x["OPT"] = ...).
+   C17_config_partial, for packages without such a write (safe; every other statement of the model: subinclude in any
+   order and repeatedly, CONFIG[k] = v, CONFIG.setdefault, package(k = "v"), package(k = {"nk": "v"}), also raising ones):
+   (C1) every interpreter state reached from the empty one by ANY sequence of packages is canon - no exported dict has
+        been written to and every cached overlay is still what the text of its build_defs file determines;
+   (C2) what every package of a sequence ends with, AND what it still has after all the others ran, is a function of its
+        own text (and the text of the files it subincludes) only;
+   (C3) hence b after any history = b alone, and (C4) after = final for every package. *)
+From PlzV Require Import Model.C17_Config Proof.C17_ConfigIso.
+
+Definition C17_config_statement : Prop :=
+  forall defs base keys nkeys hist b,
+    nth_error (scenario defs base keys nkeys (hist ++ [b])) (length hist) = nth_error (scenario defs base keys nkeys [b]) 0.
+
+Theorem C17_config_refuted : ~ C17_config_statement.
+Proof. exact cfg_refuted. Qed.
+Print Assumptions C17_config_refuted.
+
+Definition C17_config_partial_statement : Prop :=
+  (* (C1) *)
+  (forall defs base keys nkeys pkgs, Forall safe pkgs -> canon defs base (fst (run_pkgs defs base keys nkeys pkgs g0)))
+  (* (C2) *)
+  /\ (forall defs base keys nkeys pkgs, Forall safe pkgs ->
+        scenario defs base keys nkeys pkgs = map (pure_pkg defs base keys nkeys) pkgs)
+  (* (C3) *)
+  /\ (forall defs base keys nkeys hist b, Forall safe hist -> safe b ->
+        nth_error (scenario defs base keys nkeys (hist ++ [b])) (length hist) = nth_error (scenario defs base keys nkeys [b]) 0)
+  (* (C4) *)
+  /\ (forall defs base keys nkeys pkgs, Forall safe pkgs ->
+        Forall (fun o => match o with COErr => True | COOk a f => a = f end) (scenario defs base keys nkeys pkgs)).
+
+Theorem C17_config_partial : C17_config_partial_statement.
+Proof. exact (conj canon_invariant (conj scenario_pure (conj cfg_isolation cfg_stable))). Qed.
+Print Assumptions C17_config_partial.
+
+(* Non-vacuity: a package that subincludes the file, overrides one nested key with package(), assigns and setdefaults is
+   safe; it ends with its override, and the package after it still reads the file's values. *)
+Example C17_config_partial_nonvacuous :
+  Forall safe [ea] /\ safe wb /\
+  scenario wdefs [] [s "MYLANG"; s "K"] [s "OPT"; s "WARN"] [ea; wb]
+  = [COOk [RVDict [Some (s "-O0"); Some (s "-Wall")]; RVStr (s "x")] [RVDict [Some (s "-O0"); Some (s "-Wall")]; RVStr (s "x")];
+     COOk [RVDict [Some (s "-O2"); Some (s "-Wall")]; RVNone] [RVDict [Some (s "-O2"); Some (s "-Wall")]; RVNone]].
+Proof. exact cfg_partial_nonvacuous. Qed.
